@@ -20,9 +20,24 @@ pub fn layout_rules(family: u8) -> (&'static str, &'static str) {
             "Layout: LayoutItem*;\nLayoutItem: WS | Comment;\nComment: '/*' Corncs '*/' | CommentLine;\nCorncs: Cornc*;\nCornc: Comment | NotComment | WS;\n",
             "WS: /\\s+/;\nOComment: '/*';\nCComment: '*/';\nCommentLine: /\\/\\/.*/;\nNotComment: /((\\*[^\\/])|[^\\s*\\/]|\\/[^\\*])+/;\n",
         ),
+        // Layout rules with a direct EMPTY alternative / other recursion shapes (same languages as 2 and 1)
+        4 => ("Layout: LayoutItem+ | EMPTY;\nLayoutItem: WS | CommentLine;\n", "WS: /\\s+/;\nCommentLine: /\\/\\/.*/;\n"),
+        5 => ("Layout: WS Layout | EMPTY;\n", "WS: /\\s+/;\n"),
+        6 => ("Layout: Layout LayoutItem | EMPTY;\nLayoutItem: WS | CommentLine;\n", "WS: /\\s+/;\nCommentLine: /\\/\\/.*/;\n"),
         _ => ("", ""),
     }
 }
+
+/// family of generated layout strings / of the recogniser for a Layout-rule family
+pub fn lang_of(family: u8) -> u8 {
+    match family {
+        4 | 6 => 2,
+        5 => 1,
+        f => f,
+    }
+}
+
+pub const N_FAMILIES: u8 = 7;
 
 pub fn grammar_text(g: &AG, family: u8) -> String {
     let mut t = g.text();
@@ -55,6 +70,7 @@ fn gen_block(rng: &mut Rng, depth: usize) -> String {
 
 /// A layout string of the family (possibly empty when allow_empty).
 pub fn gen_layout(rng: &mut Rng, family: u8, allow_empty: bool, at_end: bool) -> String {
+    let family = lang_of(family);
     if allow_empty && rng.chance(0.25) {
         return String::new();
     }
@@ -91,6 +107,7 @@ pub fn gen_layout(rng: &mut Rng, family: u8, allow_empty: bool, at_end: bool) ->
 
 /// Own recogniser of the generated layout families (does the whole string belong to L(Layout)?).
 pub fn is_layout(s: &str, family: u8) -> bool {
+    let family = lang_of(family);
     fn block(b: &[char], mut i: usize) -> Option<usize> {
         // b[i..] starts with "/*"
         i += 2;
@@ -244,7 +261,7 @@ pub fn run_grammar(g: &AG, wd: &Workdir, rep: &mut Rep, rng: &mut Rng, maxlen: u
     }
     rep.count("grammars_in_scope", 1);
     let mut sides = vec![];
-    for family in 0u8..4 {
+    for family in 0u8..N_FAMILIES {
         let text = grammar_text(g, family);
         let c = wd.compile(&text, &SetSpec::lr(1));
         match (&c.outcome, c.dump) {
